@@ -252,6 +252,12 @@ def gen_adversarial(seed, rng):
                 lambda: ir.call('dataJoin', rows, rows, ir.s('a'), bad, ir.var('true'), *variables),
             ])()
             kinds.append('data-bad-expression')
+        elif c < 0.135:
+            # the built-in 'if' special form with any number of arguments (it is evaluated outside the call wrapper)
+            e = ir.call('if', *[operand(rng, 1) for _ in range(rng.choice([0, 1, 2, 3, 4, 4, 5, 6]))])
+            if not safe_pow(e):
+                e = ir.call('if', ir.num(1), ir.num(2), ir.num(3), ir.num(4))
+            kinds.append('if-special-form')
         elif c < 0.15:
             # hand-built model: a call expression without the optional 'args' member
             e = {'function': {'name': rng.choice(['fnA', 'fnRec', 'arrayNew', 'stringLength', 'hostTick', 'mathMax'])}}
